@@ -23,7 +23,8 @@ def first_leaf(depth):
   return sum(3**d for d in range(depth - 1))
 
 
-def tree_ok(t, off, depth, nleaves, comp_kinds=NCOMP, pin=True):
+def tree_ok(t, off, depth, nleaves, comp_kinds=NCOMP, pin=True,
+            root_union=0, mid_no_union=False):
   """Bounds of one tree stored at t[off : off + 2*nodes(depth)].
 
   With pin=True the selectors the decoder will not read are forced to 0, so
@@ -44,6 +45,12 @@ def tree_ok(t, off, depth, nleaves, comp_kinds=NCOMP, pin=True):
       conds.append(any([all([u, inrange(k, 0, nk)]), all([u ^ True, k == 0])]))
       in_range_a = any([all([u, inrange(a, 0, 3)]), all([u ^ True, a == 0])])
     conds.append(in_range_a)
+    if i == 0 and root_union:
+      # the root is a union of exactly `root_union` members (2 or 3)
+      conds.append(k == nleaves + K_UNION)
+      conds.append(a == root_union - 2)
+    if i > 0 and mid_no_union:
+      conds.append(k != nleaves + K_UNION)
     if i < fl:
       comp = k - nleaves  # composite kind if >= 0
       uses_a = any([comp == K_TUPLE, comp == K_CALLABLE, comp == K_UNION])
